@@ -212,7 +212,10 @@ def _run_scenario(sc):
             ncommits = len(run.commits)
             sc["_observed"] = [S.observed_note_lines(run.repo.note(sha)) for sha, _ in run.commits[1:]]
             sc["_commit_ok"] = list(run.commit_ok)
-            sc["_skip"] = sorted(stale_initial | o2_taint)
+            # files on which the binary deviates from the idealised model through a recorded finding
+            idealised = {d.get("path") for sig, d in failures
+                         if sig == "uncommitted-ai-line-reindented-below-a-line-inserted-in-the-same-interval"}
+            sc["_skip"] = sorted(stale_initial | o2_taint | idealised)
     except Exception as ex:
         failures.append(("runner-exception", {"error": repr(ex), "trace": traceback.format_exc()[-1500:]}))
     return failures, ncommits, corr
